@@ -201,9 +201,11 @@ Definition render_piece (p : pbar) (now : Z) (fm : formatter) (x : piece) : res 
     Ok (fm, just s (dec_text (if (p_step p =? 0)%Z then 0%Z
                               else round_half_even ((now - p_start p) * p_max p) (1000 * p_step p))))
   | PRemaining s =>
+    (* the code computes elapsed / step * (max - max), i.e. always 0 seconds (Symfony's original has max - step); the time
+       placeholders are outside the clauses of C16, the model follows the code as it is *)
     if (p_max p =? 0)%Z then Err no_max else
     Ok (fm, just s (format_time (1000 * (if (p_step p =? 0)%Z then 0%Z
-                                         else round_half_even ((now - p_start p) * (p_max p - p_step p)) (1000 * p_step p)))))
+                                         else round_half_even ((now - p_start p) * (p_max p - p_max p)) (1000 * p_step p)))))
   | PMessage => Ok (fm, match p_message p with Some m => m | None => [37;109;101;115;115;97;103;101;37]%N end)
   end.
 (* the placeholders are replaced from left to right *)
